@@ -145,7 +145,7 @@ STEP_CARRIERS = [r'R_<.*>::processTransitions', r'R_<.*>::applyRequest', r'Regis
 def machine_jobs(m, kinds=(0, 1, 2), upd_kinds_quick=(0, 2, 6), upd_kinds=(0, 1, 2, 6), tier='quick', q2_tier='thorough'):
     base = dict(tu=m.tu, defs=m.defs, unwind=m.unwind, objbits=12, timeout=900)
     for e in ('proof_init', 'proof_exit_enter', 'proof_reset', 'proof_cfg_count'):
-        job(id='C.%s.%s' % (m.name, e[6:]), entry=e, props=['C01', 'C02', 'C03', 'C13', 'C11'] if e != 'proof_cfg_count' else ['C01', 'C02', 'C03', 'C04', 'C05'], tier=tier,
+        job(id='C.%s.%s' % (m.name, e[6:]), entry=e, props=['C01', 'C02', 'C03', 'C13', 'C11'] if e != 'proof_cfg_count' else ['C01'], tier=tier,
             carriers=[r'R_<.*>::initialEnter', r'R_<.*>::finalExit'] if e == 'proof_init' else [], case_key='%s/%s' % (m.name, e[6:]), **base)
     for k in kinds:
         for d in range(1, m.n):
@@ -256,12 +256,14 @@ serial_jobs(M_RES); serial_jobs(M_ORTHO); serial_jobs(M_NEST)
 history_jobs(M_RES); history_jobs(M_NEST); history_jobs(M_ORTHO, tier='thorough')
 
 # ------------------------------------------------------------------ C10 determinism (two-run contracts)
-for variant, defs in (('user_rng', {}), ('builtin_rng', {'VD_BUILTIN_RNG': None})):
-    for entry in ('proof_two_storages', 'proof_copy'):
-        for sroa in (True, False):
-            job(id='C10.%s.%s%s' % (variant, entry[6:], '' if sroa else '.unpromoted'), tu='tier_c/m_determinism.cpp', defs=defs, entry=entry, props=['C10', 'C11'], unwind=34, objbits=12, timeout=900, sroa=sroa,
-                tier='quick' if sroa else 'thorough', carriers=[r'InstanceT<.*>::InstanceT', r'CoreT<.*>::CoreT', r'R_<.*>::R_', r'RV_<.*>::RV_'],
-                case_key='determinism/%s/%s/%s' % (variant, entry[6:], 'sroa' if sroa else 'un-promoted IR'))
+for variant, vdefs in (('user_rng', {}), ('builtin_rng', {'VD_BUILTIN_RNG': None})):
+    for script in (0, 1, 2, 3):
+        for entry in ('proof_two_storages', 'proof_copy'):
+            for sroa in (True, False):
+                defs = dict(vdefs); defs['VD_SCRIPT'] = script
+                job(id='C10.%s.s%d.%s%s' % (variant, script, entry[6:], '' if sroa else '.unpromoted'), tu='tier_c/m_determinism.cpp', defs=defs, entry=entry, props=['C10', 'C11'], unwind=34, objbits=12, timeout=900, sroa=sroa,
+                    tier='quick' if (sroa and script < 2) else 'thorough', carriers=[r'InstanceT<.*>::InstanceT', r'CoreT<.*>::CoreT', r'R_<.*>::R_', r'RV_<.*>::RV_'],
+                    case_key='determinism/%s/script %d/%s/%s' % (variant, script, entry[6:], 'sroa' if sroa else 'un-promoted IR'))
 
 # ------------------------------------------------------------------ Tier B: plan storage over symbolic contents (C07)
 PLAN_CARRIERS = [r'PlanT<.*>::append', r'PlanT<.*>::linkTask', r'PlanT<.*>::remove', r'PlanT<.*>::clearTasks', r'PlanT<.*>::Iterator::operator\+\+', r'PlanDataT<.*>::clear\(\)', r'TaskListT<.*>::emplace', r'TaskListT<.*>::remove']
@@ -366,7 +368,7 @@ for tu, defs, entries, uw in (('tier_a/tasklist.cpp', {'CAP': 3}, ('proof_emplac
 import re as _re
 QUICK_TABLE = [
     (r'^C\.(resumable)\.(init|exit_enter|reset|cfg_count)$', None),                       # None = quick for every property of the job
-    (r'^C\.(nested|ortho|select|plan)\.(init|exit_enter|reset|cfg_count)$', ['C01', 'C02', 'C03', 'C05']),
+    (r'^C\.(nested|ortho|select|plan)\.(init|exit_enter|reset|cfg_count)$', ['C01', 'C02', 'C03']),
     (r'^C\.resumable\.imm\.',            ['C01', 'C02', 'C03', 'C04', 'C13', 'C11']),
     (r'^C\.nested\.imm\.',               ['C01', 'C02', 'C03']),
     (r'^C\.select\.imm\.',               ['C01', 'C02']),
